@@ -178,13 +178,194 @@ theorem C16_status_cases (method : Bytes) (isH2 : Bool) (ct accept : Option Byte
     · have : (method == TMap.str "POST") = false := by simpa using hm
       simp [this, hm, toExpect]
 
-/-- The translated request carries the gRPC content type and the translated response the
-grpc-web content type of the form that was asked for. -/
+/-- The content-type constants of the model are the protocol's (a table of five constants; the
+statements about header MAPS are `C16_coerce_request_headers` / `C16_coerce_response_headers`). -/
 theorem C16_content_types :
     GRPC_CONTENT_TYPE = Spec.GrpcWeb.grpcContentType ∧
     ∀ a : Enc, toContentType a = Spec.GrpcWeb.responseContentType (a == Enc.base64) := by
   refine ⟨rfl, fun a => ?_⟩
   cases a <;> rfl
+
+private theorem hdr_names_distinct :
+    CONTENT_TYPE ≠ TE ∧ CONTENT_TYPE ≠ ACCEPT_ENCODING ∧ CONTENT_TYPE ≠ CONTENT_LENGTH ∧
+    TE ≠ ACCEPT_ENCODING ∧ TE ≠ CONTENT_LENGTH ∧ CONTENT_LENGTH ≠ ACCEPT_ENCODING := by decide
+
+/-- **`coerce_request` on every header map.**  Whatever headers the grpc-web request carried
+(any names, repeated names, several `content-type` / `te` / `content-length` values): after
+`coerce_request` the map has exactly one `content-type`, and it is `application/grpc`; exactly
+one `te`, `trailers`; no `content-length`; `accept-encoding: identity,deflate,gzip`; and every
+other name keeps all its values in their order. -/
+theorem C16_coerce_request_headers (h : List Pair) :
+    TMap.getAll CONTENT_TYPE (coerceRequest h) = [Spec.GrpcWeb.grpcContentType] ∧
+    TMap.getAll TE (coerceRequest h) = [TRAILERS] ∧
+    TMap.getAll CONTENT_LENGTH (coerceRequest h) = [] ∧
+    TMap.getAll ACCEPT_ENCODING (coerceRequest h) = [IDENTITY_DEFLATE_GZIP] ∧
+    ∀ k, k ≠ CONTENT_TYPE → k ≠ TE → k ≠ CONTENT_LENGTH → k ≠ ACCEPT_ENCODING →
+      TMap.getAll k (coerceRequest h) = TMap.getAll k h := by
+  obtain ⟨d1, d2, d3, d4, d5, d6⟩ := hdr_names_distinct
+  unfold coerceRequest
+  refine ⟨?_, ?_, ?_, ?_, ?_⟩
+  · rw [getAll_hinsert_ne _ _ _ _ d2, getAll_hinsert_ne _ _ _ _ d1, getAll_hinsert_self]; rfl
+  · rw [getAll_hinsert_ne _ _ _ _ d4, getAll_hinsert_self]
+  · rw [getAll_hinsert_ne _ _ _ _ d6, getAll_hinsert_ne _ _ _ _ (Ne.symm d5),
+      getAll_hinsert_ne _ _ _ _ (Ne.symm d3), getAll_hremove_self]
+  · rw [getAll_hinsert_self]
+  · intro k h1 h2 h3 h4
+    rw [getAll_hinsert_ne _ _ _ _ h4, getAll_hinsert_ne _ _ _ _ h2, getAll_hinsert_ne _ _ _ _ h1,
+      getAll_hremove_ne _ _ _ h3]
+
+/-- **`coerce_response` on every header map**: exactly one `content-type`, the grpc-web type of
+the accepted form; every other header of the inner service's response is kept. -/
+theorem C16_coerce_response_headers (a : Enc) (h : List Pair) :
+    TMap.getAll CONTENT_TYPE (coerceResponse a h) =
+      [Spec.GrpcWeb.responseContentType (a == Enc.base64)] ∧
+    ∀ k, k ≠ CONTENT_TYPE → TMap.getAll k (coerceResponse a h) = TMap.getAll k h := by
+  unfold coerceResponse
+  refine ⟨?_, fun k hk => getAll_hinsert_ne _ _ _ _ hk⟩
+  rw [getAll_hinsert_self]
+  cases a <;> rfl
+
+/-- the form the oracle speaks of, as the model's `Encoding` -/
+private def encOf (text : Bool) : Enc := if text then Enc.base64 else Enc.none
+
+/-- **The decision on whole requests.**  For every request (method, version, uri, any header
+map, extensions) the arm `GrpcWebService::call` takes is the protocol's, read off the first
+`content-type` and the first `accept` value. -/
+theorem C16_decision (p : Parts) :
+    toExpect (actionOf p) =
+      Spec.GrpcWeb.expectFor p.method (p.version == Ver.h2) p.headers :=
+  C16_status_cases p.method (p.version == Ver.h2) _ _
+
+private theorem action_of_web (p : Parts) (rt pt : Bool)
+    (h : Spec.GrpcWeb.expectFor p.method (p.version == Ver.h2) p.headers = .web rt pt) :
+    actionOf p = Action.web (encOf rt) (encOf pt) := by
+  have := C16_decision p
+  rw [h] at this
+  cases ha : actionOf p with
+  | web e a =>
+    rw [ha] at this
+    simp only [toExpect, Spec.GrpcWeb.Expect.web.injEq] at this
+    obtain ⟨h1, h2⟩ := this
+    subst h1; subst h2
+    cases e <;> cases a <;> rfl
+  | status c => rw [ha] at this; simp [toExpect] at this
+  | pass => rw [ha] at this; simp [toExpect] at this
+
+/-- **Pass-through is the identity.**  A request the protocol does not claim (no grpc-web content
+type) on HTTP/2 reaches the inner service as the very same request — same method, version, uri,
+extensions, the same header map entry for entry, the same body frame for frame — and the inner
+service's response (status, headers, body) is handed back as it is. -/
+theorem C16_passthrough_untouched (p : Parts) (reqBody : List BodyEv) (st : Nat)
+    (ih : List Pair) (ib : List BodyEv)
+    (h : Spec.GrpcWeb.expectFor p.method (p.version == Ver.h2) p.headers = .pass) :
+    serve p reqBody = Served.inner p (passRun reqBody) none ∧
+    respond p reqBody st ih ib = { status := st, headers := ih, body := passRun ib } := by
+  have hd := C16_decision p
+  rw [h] at hd
+  have ha : actionOf p = Action.pass := by
+    cases ha : actionOf p <;> rw [ha] at hd <;> simp [toExpect] at hd
+  simp [respond, serve, ha]
+
+/-- … where "the same body frame for frame" means: the data chunks one for one, the trailers
+map (if any) with every name's values in order, then the end. -/
+theorem C16_passthrough_body (chunks : List Bytes) (t : List Pair) (evs : List BodyEv)
+    (hsched : evs.filter notPending = chunks.map BodyEv.data ++ [BodyEv.trailers t]) :
+    passRun evs = chunks.map Out.data ++ [Out.trailers (TMap.group t), Out.eos] ∧
+    ∀ k, TMap.getAll k (TMap.group t) = TMap.getAll k t := by
+  refine ⟨?_, fun k => TMap.getAll_group k t⟩
+  show reqBin evs = _
+  rw [reqBin_filter, hsched]
+  exact passRun_data_trailers chunks t
+
+/-- **405 / 400 without calling the inner service.**  Whenever the protocol's answer is an
+immediate status (grpc-web content type with a method other than POST: 405; no grpc-web content
+type and not HTTP/2: 400), the inner service is not called and the response is that status with
+no headers and an empty body. -/
+theorem C16_rejected_without_inner (p : Parts) (reqBody : List BodyEv) (st : Nat)
+    (ih : List Pair) (ib : List BodyEv) (c : Nat)
+    (h : Spec.GrpcWeb.expectFor p.method (p.version == Ver.h2) p.headers = .status c) :
+    serve p reqBody = Served.immediate c ∧
+    respond p reqBody st ih ib = { status := c, headers := [], body := [Out.eos] } := by
+  have hd := C16_decision p
+  rw [h] at hd
+  have ha : actionOf p = Action.status c := by
+    cases ha : actionOf p <;> rw [ha] at hd <;> simp [toExpect] at hd
+    subst hd; rfl
+  simp [respond, serve, ha]
+
+/-- **Request side, end to end.**  For every grpc-web POST request — any version, uri, header
+map — every payload and every chunking of its body (binary: the payload itself; text: its
+padded base64 text, cut anywhere): the inner service is called with the same method, version,
+uri and extensions, a header map whose `content-type` is exactly `application/grpc` (with
+`te: trailers`, no `content-length`, all other names untouched), and a body that delivers
+exactly the payload and then ends. -/
+theorem C16_request_end_to_end (p : Parts) (rt pt : Bool)
+    (hexp : Spec.GrpcWeb.expectFor p.method (p.version == Ver.h2) p.headers = .web rt pt)
+    (payload : Bytes) (chunks : List Bytes) (evs : List BodyEv)
+    (hsched : evs.filter notPending = chunks.map BodyEv.data)
+    (hbody : chunks.flatten = if rt then B64.encode true payload else payload) :
+    ∃ (hs' : List Pair) (outs : List Bytes),
+      serve p evs = Served.inner { p with headers := hs' } (outs.map Out.data ++ [Out.eos])
+        (some (encOf pt)) ∧
+      outs.flatten = payload ∧
+      TMap.getAll CONTENT_TYPE hs' = [Spec.GrpcWeb.grpcContentType] ∧
+      TMap.getAll TE hs' = [TRAILERS] ∧
+      TMap.getAll CONTENT_LENGTH hs' = [] ∧
+      (∀ k, k ≠ CONTENT_TYPE → k ≠ TE → k ≠ CONTENT_LENGTH → k ≠ ACCEPT_ENCODING →
+        TMap.getAll k hs' = TMap.getAll k p.headers) := by
+  have ha := action_of_web p rt pt hexp
+  obtain ⟨c1, c2, c3, _, c5⟩ := C16_coerce_request_headers p.headers
+  cases rt with
+  | true =>
+    obtain ⟨outs, ho, hf⟩ := C16_request_text_lossless payload chunks evs hsched (by simpa using hbody)
+    refine ⟨coerceRequest p.headers, outs, ?_, hf, c1, c2, c3, c5⟩
+    simp [serve, ha, encOf, ho]
+  | false =>
+    have ho := C16_request_binary_lossless chunks evs hsched
+    refine ⟨coerceRequest p.headers, chunks, ?_, by simpa using hbody, c1, c2, c3, c5⟩
+    simp [serve, ha, encOf, ho]
+
+/-- **Response side, end to end: the form is the one the request's Accept header asks for.**
+For every grpc-web POST request (any header map; `pt` = the protocol's reading of its first
+`accept` value: text iff it is `application/grpc-web-text[+proto]`), whatever the inner service
+answers — any status, any headers, any message frames cut into chunks in any way, any trailers,
+any `Pending`s: the layer's response has the inner status, exactly one `content-type`, the
+grpc-web type of THAT form, all other inner headers, and a body which an independent grpc-web
+reader OF THAT FORM reads as the identical message frames followed by exactly one trailers frame
+listing every trailer.  (Composition of `C16_decision`, `C16_coerce_response_headers` and
+`C16_response_lossless`: `respRun` is run with the very `accept` that the decision computed.) -/
+theorem C16_response_end_to_end (p : Parts) (rt pt : Bool)
+    (hexp : Spec.GrpcWeb.expectFor p.method (p.version == Ver.h2) p.headers = .web rt pt)
+    (reqBody : List BodyEv) (st : Nat) (ih : List Pair)
+    (frames : List (Bool × Bytes)) (trailers : List Pair) (chunks : List Bytes) (evs : List BodyEv)
+    (hsched : evs.filter notPending = chunks.map BodyEv.data ++ [BodyEv.trailers trailers])
+    (hchunks : chunks.flatten = Spec.GrpcWeb.framesBytes frames)
+    (hframes : ∀ f ∈ frames, f.2.length < 4294967296)
+    (htr : ∀ p ∈ trailers, nameOk p.1 ∧ valueOk p.2)
+    (hlen : (encodeTrailers trailers).length < 4294967296) :
+    (respond p reqBody st ih evs).status = st ∧
+    TMap.getAll CONTENT_TYPE (respond p reqBody st ih evs).headers =
+      [Spec.GrpcWeb.responseContentType pt] ∧
+    (∀ k, k ≠ CONTENT_TYPE →
+      TMap.getAll k (respond p reqBody st ih evs).headers = TMap.getAll k ih) ∧
+    ∃ (outs : List Bytes) (t' : List Pair),
+      (respond p reqBody st ih evs).body = outs.map Out.data ++ [Out.eos] ∧
+      Spec.GrpcWeb.read pt outs.flatten =
+        some (frames.map (fun f => Item.msg f.1 f.2) ++ [Item.trailers t']) ∧
+      (∀ k, TMap.getAll k t' = TMap.getAll k trailers) ∧
+      (∀ q, q ∈ t' ↔ q ∈ trailers) := by
+  have ha := action_of_web p rt pt hexp
+  have hr : respond p reqBody st ih evs =
+      { status := st, headers := coerceResponse (encOf pt) ih, body := respRun (encOf pt) evs } := by
+    simp [respond, serve, ha]
+  obtain ⟨h1, h2⟩ := C16_coerce_response_headers (encOf pt) ih
+  have hb : (encOf pt == Enc.base64) = pt := by cases pt <;> rfl
+  rw [hb] at h1
+  obtain ⟨outs, t', ho, hread, hk, hm⟩ :=
+    C16_response_lossless (encOf pt) frames trailers chunks evs hsched hchunks hframes htr hlen
+  rw [hb] at hread
+  rw [hr]
+  exact ⟨rfl, h1, h2, outs, t', ho, hread, hk, hm⟩
 
 /-! Non-vacuity: the hypotheses are satisfiable by non-trivial values. -/
 
@@ -214,5 +395,34 @@ example : reqRun Enc.base64 [.data (TMap.str "AAAAAAIBA")] = [Out.data [0, 0, 0,
 example : reqRun Enc.base64 [.data (TMap.str "AQ==AQ==")] = [Out.err] := by decide
 example : classify (TMap.str "GET") true (some GRPC_WEB_TEXT) none = Action.status 405 := by decide
 example : classify (TMap.str "POST") false (some GRPC_WEB_TEXT) (some GRPC_WEB) = Action.web .base64 .none := by decide
+
+
+-- whole requests: a text request with a repeated content-type (the first one decides), `te` and
+-- `content-length` present, a custom name repeated
+example :
+    let p : Parts := {
+      method := TMap.str "POST", version := Ver.h11, uri := TMap.str "/a.B/C", ext := true,
+      headers := [(CONTENT_TYPE, GRPC_WEB_TEXT), (TE, TMap.str "gzip"), (TMap.str "x-user", TMap.str "a"),
+        (CONTENT_TYPE, GRPC_CONTENT_TYPE), (CONTENT_LENGTH, TMap.str "8"), (TMap.str "x-user", TMap.str "b"),
+        (ACCEPT, GRPC_WEB_TEXT_PROTO)] }
+    Spec.GrpcWeb.expectFor p.method (p.version == Ver.h2) p.headers = .web true true ∧
+    serve p [.data (TMap.str "AAAAAAIBAg==")] =
+      Served.inner { p with headers := [(TMap.str "x-user", TMap.str "a"), (TMap.str "x-user", TMap.str "b"),
+          (ACCEPT, GRPC_WEB_TEXT_PROTO), (CONTENT_TYPE, GRPC_CONTENT_TYPE), (TE, TRAILERS),
+          (ACCEPT_ENCODING, IDENTITY_DEFLATE_GZIP)] }
+        [Out.data [0, 0, 0, 0, 2, 1, 2], Out.eos] (some Enc.base64) := by
+  decide
+
+example :
+    let p : Parts := {
+      method := TMap.str "POST", version := Ver.h2, uri := TMap.str "/", ext := false,
+      headers := [(CONTENT_TYPE, GRPC_CONTENT_TYPE), (TE, TMap.str "trailers")] }
+    Spec.GrpcWeb.expectFor p.method (p.version == Ver.h2) p.headers = .pass := by decide
+
+example :
+    let p : Parts := {
+      method := TMap.str "GET", version := Ver.h2, uri := TMap.str "/", ext := false,
+      headers := [(CONTENT_TYPE, GRPC_WEB)] }
+    Spec.GrpcWeb.expectFor p.method (p.version == Ver.h2) p.headers = .status 405 := by decide
 
 end C16
